@@ -8,7 +8,7 @@
 (* crates and out-of-line mod declarations are judged by C10 / C11 and     *)
 (* left out).  The two token sequences are aligned; every difference is a  *)
 (* single-token EDIT                                                       *)
-(*   {op: "del"|"ins", tok, cls, prev, prev2, next, after, head, pos}      *)
+(*   {op: "del"|"ins", tok, cls, prev, prev2, next, after, head, pos, solo} *)
 (* (prev/prev2: the tokens before it in the rebuilt output stream, next:   *)
 (* the next input token, after: the next output token, head: first token   *)
 (* of the enclosing statement, pos: the gap it sits in).                   *)
@@ -33,8 +33,11 @@ Same(k, P(_)) == \E j \in 1 .. Len(E) : j # k /\ E[j].pos = E[k].pos /\ P(E[j])
 ArrowBefore(e) == e.prev = ">" /\ e.prev2 = "="
 
 (* ---- the closed set of normalisations ---- *)
-(* optional trailing separators *)
-TrailingComma(e) == e.tok = "," /\ (e.next \in Closers \/ e.after \in Closers \/ e.prev = "}")
+(* optional trailing separators -- the comma of a one-element tuple `(x,)` is not one of them: *)
+(* without it the parentheses mean grouping (e.solo: the only top-level comma of a            *)
+(* parenthesised group that is not an argument list, standing right before the `)`)           *)
+TrailingComma(e) == e.tok = "," /\ ~e.solo
+                    /\ (e.next \in Closers \/ e.after \in Closers \/ e.prev = "}")
 RedundantSemi(e) == e.tok = ";" /\ e.op = "del" /\ e.prev \in {";", "}", "{"}
 (* `return x` / `break` / `continue` as the last statement of a block gain a `;` *)
 DivergingSemi(e) == e.tok = ";" /\ e.op = "ins" /\ e.head \in {"return", "break", "continue"}
